@@ -170,15 +170,24 @@ def run(ctx):
   mf = ctx.func('config._might_have_parameter')
   g, facts = std_facts(prog, mf)
 
+  spec_names = {u(a.targets[0]) for a in walk_local(mf.node) if isinstance(a, ast.Assign) and len(a.targets) == 1 and isinstance(a.value, ast.Call)
+                and prog.resolve_call(mf, a.value) == 'config._get_cached_arg_spec'} | {'arg_spec'}
+
+  def spec_field(x):
+    """'varkw' / 'args' / 'kwonlyargs' when x reads that field of the inspected signature (through a local, or from the call itself)."""
+    if isinstance(x, ast.Attribute) and (u(x.value) in spec_names or
+                                         (isinstance(x.value, ast.Call) and prog.resolve_call(mf, x.value) == 'config._get_cached_arg_spec')):
+      return x.attr
+    return None
+
   def atom_sig(e):
-    t = u(e)
-    if t == 'arg_spec.varkw':
+    if spec_field(e) == 'varkw':
       return 'varkw'
-    if isinstance(e, ast.Compare) and len(e.ops) == 1 and isinstance(e.ops[0], ast.In) and u(e.left) == 'arg_name':
-      r = u(e.comparators[0])
-      if r == 'arg_spec.args':
+    if isinstance(e, ast.Compare) and len(e.ops) == 1 and isinstance(e.ops[0], ast.In) and u(e.left) == mf.params[1]:
+      r = spec_field(e.comparators[0])
+      if r == 'args':
         return 'in_args'
-      if r == 'arg_spec.kwonlyargs':
+      if r == 'kwonlyargs':
         return 'in_kwonly'
     return None
 
@@ -199,9 +208,8 @@ def run(ctx):
             'a parameter is accepted iff the signature has **kwargs, or names it as a positional-or-keyword or keyword-only parameter',
             'the signature test differs from `**kwargs or named positional or keyword-only` (e.g. at line %d for %s)'
             % (bad[0][0].lineno, bad[0][1]) if bad else '', mf.loc(bad[0][0].ast) if bad else mf.loc(), sites=len(rets))
-  spec_def = [n for n in walk_local(mf.node) if isinstance(n, ast.Assign) and u(n.targets[0]) == 'arg_spec']
-  ok = len(spec_def) == 1 and isinstance(spec_def[0].value, ast.Call) and \
-      prog.resolve_call(mf, spec_def[0].value) == 'config._get_cached_arg_spec'
+  spec_calls = [c_ for c_ in walk_local(mf.node) if isinstance(c_, ast.Call) and prog.resolve_call(mf, c_) == 'config._get_cached_arg_spec']
+  ok = bool(spec_calls) and len({u(c_) for c_ in spec_calls}) == 1
   ctx.check(ok, 'C11.signature', construct(mf), 'the signature inspected is that of the (unwrapped) callable / class constructor',
             'arg_spec is no longer obtained from _get_cached_arg_spec', mf.loc(), instance='argspec')
 
